@@ -72,9 +72,30 @@ def depth2(d1):
     return out
 
 
+WILD = [["custom", "Between[0,10]"], ["custom", "Between[0,Any]"], ["custom", "Between[Any,10]"],
+        ["custom", "Between[Any,Any]"], ["custom", "Between[1,10]"]]
+
+
+def _wild_params(name):
+    inner = name[name.index("[") + 1:-1].split(",")
+    return [None if x == "Any" else int(x) for x in inner]
+
+
+def wild_order(n1, n2):
+    """docs/dependent.md 'Wildcards': Any is more general than a specific value, position by position"""
+    p1, p2 = _wild_params(n1), _wild_params(n2)
+    if p1 == p2:
+        return Order.SAME
+    if any(a is not None and b is not None and a != b for a, b in zip(p1, p2)):
+        return None  # different concrete values: the documentation only speaks about Any vs a value
+    less = all(b is None or a == b for a, b in zip(p1, p2))   # p1 at least as specific everywhere
+    more = all(a is None or a == b for a, b in zip(p1, p2))
+    return Order.LESS if less else Order.MORE if more else Order.NONE
+
+
 def universe(depth):
     d1 = depth1()
-    u = ATOMS + d1
+    u = ATOMS + d1 + WILD
     if depth >= 2:
         u = u + depth2(d1)
     seen, out = set(), []
@@ -94,6 +115,18 @@ def env():
     if _ENV is None:
         _ENV = H.build(HIER)
         _ENV["__depcache__"] = {}
+        import typing
+
+        from ovld import dependent_check
+
+        @dependent_check
+        def Between(value: int, lo, hi):
+            return (lo is typing.Any or value >= lo) and (hi is typing.Any or value <= hi)
+
+        A = typing.Any
+        _ENV["__custom__"] = {"Between[0,10]": Between[0, 10], "Between[0,Any]": Between[0, A],
+                              "Between[Any,10]": Between[A, 10], "Between[Any,Any]": Between[A, A],
+                              "Between[1,10]": Between[1, 10]}
     return _ENV
 
 
@@ -119,6 +152,8 @@ def opp(o):
 
 
 def ctor(t):
+    if t[0] == "custom":
+        return "dep"  # a parametrised user dependent type
     return t[0] if t[0] != "gen" else "gen"
 
 
@@ -148,6 +183,10 @@ def model_order(t1, t2):
     c1, c2 = class_of(t1), class_of(t2)
     if c1 is not None and c2 is not None:
         return expected_class_order(c1, c2)
+    if t1[0] == "custom" and t2[0] == "custom":
+        return wild_order(t1[1], t2[1])
+    if t1[0] == "custom" and c2 is not None and c2 is int:
+        return Order.LESS  # a dependent type is below its bound
     if t1[0] == "gen" and c2 is not None and t2[0] == "cls" and t2[1] == t1[1]:
         return Order.LESS  # G[args] below its origin
     if t1[0] == "gen" and t2[0] == "gen" and t1[1] == t2[1] and len(t1[2]) == len(t2[2]):
